@@ -306,6 +306,10 @@ C_TEMPLATES = [
     '\tcharset\t{c},255,0\n\tbyt\t"a"\n',
     '\tcharset\t255,{c}\n',
     'x\tequ\tlab[parent{c}]\n',
+    # several structures (with the used-areas list the structure pseudo segment is cleared between them); arithmetic corner values
+    's1\tstruct\na\tdfs\t{c}\ns1\tendstruct\ns2\tstruct\nb\tdfs\t1\nc\tdfs\t2\ns2\tendstruct\nu1\tunion\nd\tdfs\t1\nu1\tendunion\ni1\ts1\ni2\ts2\n',
+    'q1\tequ\t(1<<63)#(0-{c})\nq2\tequ\t(1<<63)/(0-{c})\nq3\tequ\t(0-{c})#(1<<63)\n\tbyt\tq1&255,q2&255\n',
+    'q1\tequ\t{c}#(0-1)\nq2\tequ\t{c}/(0-1)\nq3\tequ\t(1<<63)<<{c}\nq4\tequ\t(1<<63)>>{c}\nq5\tequ\t{c}><{c}\n',
     # functions that call themselves; 8-bit characters while a #define is active
     'f\tfunction\tx,f(x)+{c}\n\tbyt\tf(1)\n',
     'f\tfunction\tx,g(x)\ng\tfunction\tx,f(x)\n\tbyt\tf({c})\n',
@@ -421,7 +425,7 @@ def pool_e():
 # pool H: option values of the utilities (well-formed input, every option with boundary arguments)
 
 H_NUM = ['0', '1', '2', '3', '7', '16', '254', '255', '256', '65535', '65536', '4294967295', '4294967296', '-1', '$ff', '0x', '', 'x']
-H_RANGE = ['$-$', '0-0', '0-$', '$-0', '0x10-0x5', '0xffffffff-0xffffffff', '0-0xffffffff', '-', '0', '0-', '-0', '1-2-3', '0x1000-0x1004']
+H_RANGE = ['0x-0x', '0x100-0x', '0x-0x100', '0x2000-0x', '0x-0x2', '$-$', '0-0', '0-$', '$-0', '0x10-0x5', '0xffffffff-0xffffffff', '0-0xffffffff', '-', '0', '0-', '-0', '1-2-3', '0x1000-0x1004']
 H_OPTS = {
     'p2hex': [('-l', H_NUM), ('-r', H_RANGE), ('-R', H_NUM), ('-a', [None]), ('-i', ['0', '1', '2', '3', '-1', '']), ('-m', ['0', '1', '2', '3', '4', '-1', '']),
               ('-F', ['Default', 'Moto', 'Intel', 'Intel16', 'Intel32', 'MOS', 'Tek', 'DSK', 'Atmel', 'Mico8', 'C', '', 'nosuch']),
@@ -429,7 +433,7 @@ H_OPTS = {
               ('-SEGMENT', ['CODE', 'DATA', 'BITDATA', 'NOSUCH', '', '1']), ('-AVRLEN', ['1', '2', '3', '4', '0', '']),
               ('-CFORMAT', ['dSEl', 'd', '', 'xxxx', 'dSEl' * 20]), ('-f', ['0', '$11', '17,81', '256', '', ',', '$11,$11,$11'])],
     # p2bin fills the whole range: only ranges of at most 64 KiB (a 4 GiB image is legitimate work, not a hang)
-    'p2bin': [('-l', H_NUM), ('-r', ['$-$', '0-0', '0-$', '$-0', '0x10-0x5', '0xffffffff-0xffffffff', '0-0xffff', '-', '0', '0-', '-0', '1-2-3', '0x1000-0x1004']), ('-f', ['0', '$11', '17,81', '256', '', ',']), ('-s', [None]), ('-k', [None]),
+    'p2bin': [('-l', H_NUM), ('-r', ['0x-0x', '0x100-0x', '0x-0x100', '0x2000-0x', '0x-0x2', '$-$', '0-0', '0-$', '$-0', '0x10-0x5', '0xffffffff-0xffffffff', '0-0xffff', '-', '0', '0-', '-0', '1-2-3', '0x1000-0x1004']), ('-f', ['0', '$11', '17,81', '256', '', ',']), ('-s', [None]), ('-k', [None]),
               ('-m', ['ALL', 'EVEN', 'ODD', 'BYTE0', 'BYTE1', 'BYTE2', 'BYTE3', 'WORD0', 'WORD1', 'BYTE4', '', 'x']),
               ('-e', H_NUM), ('-S', ['L1', 'B1', 'L2', 'B2', 'L4', 'B4', 'L8', 'B8', 'L0', 'L9', '1', '4', 'X4', '', 'L']),
               ('-SEGMENT', ['CODE', 'DATA', 'NOSUCH', ''])],
@@ -526,10 +530,14 @@ def case_h(ctx, member):
         args.append(o)
         if vals[b] is not None:
             args.append(vals[b])
-    r = ctx.run(tool, args, timeout=12)
+    # (output limited to 64 MiB: a few-byte input that makes a tool write more is stopped by SIGXFSZ and reported as such)
+    r = ctx.run('/bin/sh', ['-c', 'ulimit -f 65536; exec "$0" "$@"', ctx.bins[tool]] + args, timeout=12)
     out.obs['tool_runs'] += 1
     out.sets['tools'].add(tool)
     tag = 'H:%s %s' % (tool, ' '.join(args))
+    if r.sig == 25 or r.rc == 153:
+        out.violate('runaway-output:%s' % tool, '%s: more than 64 MiB written for a %d-byte input' % (tag, len(base_files()[fi])))
+        return
     if r.timed_out:
         out.violate('hang:%s:option-value' % tool, '%s: no exit within 12 s and 60 s on a %d-byte well-formed input' % (tag, len(base_files()[fi])))
         return
@@ -805,10 +813,10 @@ def case_a(ctx, member):
     out.sigs.add('A:%s:%d:%d' % (name, op_id, off))
 
 
-def case_small(ctx, member, text, tag, claim=True, stdin=None):
+def case_small(ctx, member, text, tag, claim=True, stdin=None, opts=None):
     out = ctx.out
     ctx.write('s.asm', text)
-    r = ctx.run('asl', ['s.asm', '-o', 'x.p'] + opt_variant(tag) + ['-q'], env=ASL_ENV if claim else ASL_ENV_NOCLAIM, timeout=20 if claim else 40, retry=claim,
+    r = ctx.run('asl', ['s.asm', '-o', 'x.p'] + (opt_variant(tag) if opts is None else list(opts)) + ['-q'], env=ASL_ENV if claim else ASL_ENV_NOCLAIM, timeout=20 if claim else 40, retry=claim,
                 stdin=b'' if stdin is None else stdin)
     if r.timed_out and claim and len(text) < 4096 and getattr(r, 'cpu', 0) < 30:
         # the process did not get the processor for long enough (overloaded machine): no verdict
@@ -966,6 +974,8 @@ def run_case(case, ctx):
                 text = text.replace('\tbyt\t', '\tdc.b\t').replace('\tdfs\t', '\tds.b\t')
             claim = not big_count(cval)
             case_small(ctx, member, text, 'C:%s:%d:%d' % (cpu, t, c), claim=claim)
+            # ... and once more with every report that walks the collected data (listing, used areas, cross reference, debug info, sharefile)
+            case_small(ctx, member, text, 'C:%s:%d:%d:reports' % (cpu, t, c), claim=claim, opts=['-L', '-u', '-C', '-s', '-I', '-g', 'MAP', '-x'])
             out.sets['construct_templates'].add(t)
         elif k == 'D':
             _, i = member
